@@ -238,6 +238,52 @@ func checkC07(P *Program, r *Result, tier string) {
 			}
 		}
 	}
+	// ---------- SLOT-OWN: an item's slot is the hash of the item's own key ----------
+	// the slot is set where the item is created (in the literal that is appended, from the key whose bytes are stored
+	// with it), and afterwards only reduced (slot = slot % n on the same item). A later "re-hash" of items[i] from a
+	// key list is not known to pair items with their own keys (the items are sorted by slot in between).
+	{
+		nslot := 0
+		for _, fn := range fns {
+			if fn.Signature.Recv() == nil || !strings.Contains(fn.String(), "StrMap") || len(fn.TypeArgs()) > 0 {
+				continue
+			}
+			for _, b := range fn.Blocks {
+				for _, in := range b.Instrs {
+					st, ok := in.(*ssa.Store)
+					if !ok {
+						continue
+					}
+					fad, ok := st.Addr.(*ssa.FieldAddr)
+					if !ok || canonFieldName(fad.X.Type(), fad.Field) != "slot" {
+						continue
+					}
+					if _, isItem := deref(fad.X.Type()).Underlying().(*types.Struct); !isItem {
+						continue
+					}
+					nslot++
+					okSlot, why := false, "the slot is recomputed for an item that already exists, from a key not known to be its own"
+					// (1) part of a fresh item value (a local composite literal that is then appended / stored whole)
+					if al, isAl := fad.X.(*ssa.Alloc); isAl {
+						_ = al
+						okSlot, why = true, ""
+					}
+					// (2) reduction of the same item's slot
+					if bo, isBo := st.Val.(*ssa.BinOp); isBo && bo.Op == token.REM {
+						if ld, isLd := bo.X.(*ssa.UnOp); isLd && ld.Op == token.MUL {
+							if f2, isF := ld.X.(*ssa.FieldAddr); isF && f2.Field == fad.Field && sameItemAddr(f2.X, fad.X) {
+								okSlot, why = true, ""
+							}
+						}
+					}
+					r.add("SLOT-OWN", shortName(fn), "store", "an item's slot is set when the item is created from its own key and afterwards only reduced", P.pos(instrPos(st)), okSlot, why)
+				}
+			}
+		}
+		if nslot < 1 {
+			r.fatal("expected at least one store to an item's slot, found %d", nslot)
+		}
+	}
 	// ---------- EXTENT ----------
 	ne := 0
 	for _, fn := range fns {
@@ -757,5 +803,27 @@ func retCallOf(v ssa.Value) *ssa.Call {
 
 // sameItem: two item pointers denote the same element (same SSA value).
 func sameItem(a, b ssa.Value) bool { return a == b }
+
+// sameItemAddr: two addresses denote the same element: identical values, or IndexAddr of
+// the same slice value (or of loads of the same field) with the same index.
+func sameItemAddr(a, b ssa.Value) bool {
+	if a == b {
+		return true
+	}
+	ia, ok1 := a.(*ssa.IndexAddr)
+	ib, ok2 := b.(*ssa.IndexAddr)
+	if !ok1 || !ok2 || ia.Index != ib.Index {
+		return false
+	}
+	if ia.X == ib.X {
+		return true
+	}
+	la, ok1 := ia.X.(*ssa.UnOp)
+	lb, ok2 := ib.X.(*ssa.UnOp)
+	if ok1 && ok2 && la.Op == token.MUL && lb.Op == token.MUL {
+		return pathOf(la.X) != "" && pathOf(la.X) == pathOf(lb.X)
+	}
+	return false
+}
 
 func init() { register("C07", "other", checkC07) }
